@@ -436,7 +436,12 @@ def translate(hist, obs, ext=False):
                 continue
             if any(c[2] for c in calls):
                 return clist(terms), len(terms), "store-fault-in-sync", meta
-            t = "(PSyncPod %s %s)" % (cpk(op["ns"], op["name"]), cfaults())
+            ob = o.get("obj")
+            sp = next((x for x in obs.get("_allspecs") or all_specs(hist) if ob and x["Uid"] == ob[2] and x["Ns"] == ob[0] and x["Name"] == ob[1]), None)
+            if sp is None:
+                return clist(terms), len(terms), "sync-object-unknown", meta
+            # the object the sync holds: the informer's current one, or - "stale" - the one it showed before (an earlier incarnation)
+            t = "(PSyncPod %s %s)" % (cpod(dict(sp, Phase=ob[3]), node=ob[4], ips=ob[5]), cfaults())
             out = "ROk"
         elif k == "pool_race":
             # a pool request and a Filter of a pod of that pool, issued concurrently: both hold the pool mutex, so the run is the
